@@ -1,0 +1,107 @@
+//go:build verif
+
+package main
+
+// Verification hook (C33); not part of the normal build.
+//
+// package main cannot be imported, so the harness builds this command with -tags verif and talks to it over
+// stdin/stdout when ZOEKT_VERIF_DRIVER=c33: one JSON request per line, one JSON answer per line.
+//
+//	{"op":"exec","args":[...]}                         -> execute(args, out, errOut) run in-process
+//	{"op":"plan","desired":[...],"shards":[...]}       -> planPrune
+//	{"op":"apply_dry","actions":[...]}                 -> applyRemovals(actions, dryRun=true) (text it prints)
+
+import (
+	"bufio"
+	"bytes"
+	"encoding/json"
+	"fmt"
+	"os"
+
+	"github.com/sourcegraph/zoekt"
+)
+
+type verifC33Shard struct {
+	Path   string `json:"path"`
+	Name   string `json:"name"`
+	Source string `json:"source"`
+}
+
+type verifC33Req struct {
+	Op      string           `json:"op"`
+	Args    []string         `json:"args,omitempty"`
+	Desired []repositorySpec `json:"desired,omitempty"`
+	Shards  []verifC33Shard  `json:"shards,omitempty"`
+	Actions []pruneAction    `json:"actions,omitempty"`
+}
+
+type verifC33Resp struct {
+	Out     string        `json:"out"`
+	ErrOut  string        `json:"errout,omitempty"`
+	Err     string        `json:"err,omitempty"`
+	Panic   string        `json:"panic,omitempty"`
+	Actions []pruneAction `json:"actions,omitempty"`
+}
+
+func verifC33Handle(req verifC33Req) (resp verifC33Resp) {
+	defer func() {
+		if r := recover(); r != nil {
+			resp.Panic = fmt.Sprint(r)
+		}
+	}()
+	switch req.Op {
+	case "exec":
+		var out, errOut bytes.Buffer
+		err := execute(req.Args, &out, &errOut)
+		resp.Out, resp.ErrOut = out.String(), errOut.String()
+		if err != nil {
+			resp.Err = err.Error()
+			if resp.Err == "" {
+				resp.Err = "error"
+			}
+		}
+	case "plan":
+		shards := make([]shardInfo, 0, len(req.Shards))
+		for _, s := range req.Shards {
+			shards = append(shards, shardInfo{Path: s.Path, Repository: &zoekt.Repository{Name: s.Name, Source: s.Source}})
+		}
+		resp.Actions = planPrune(req.Desired, shards)
+	case "apply_dry":
+		var out bytes.Buffer
+		if err := applyRemovals(req.Actions, true, &out); err != nil {
+			resp.Err = err.Error()
+		}
+		resp.Out = out.String()
+	default:
+		resp.Err = "verif: unknown op " + req.Op
+	}
+	return resp
+}
+
+func init() {
+	if os.Getenv("ZOEKT_VERIF_DRIVER") != "c33" {
+		return
+	}
+	in := bufio.NewReaderSize(os.Stdin, 1<<20)
+	out := bufio.NewWriter(os.Stdout)
+	for {
+		line, err := in.ReadBytes('\n')
+		if len(bytes.TrimSpace(line)) > 0 {
+			var req verifC33Req
+			var resp verifC33Resp
+			if jerr := json.Unmarshal(line, &req); jerr != nil {
+				resp.Err = "verif: bad request: " + jerr.Error()
+			} else {
+				resp = verifC33Handle(req)
+			}
+			b, _ := json.Marshal(resp)
+			out.Write(b)
+			out.WriteByte('\n')
+			out.Flush()
+		}
+		if err != nil {
+			break
+		}
+	}
+	os.Exit(0)
+}
